@@ -29,7 +29,7 @@ from ufl.core.ufl_type import UFLType, ufl_type, update_ufl_type_attributes
 from ufl.corealg.dag_traverser import DAGTraverser
 from ufl.corealg.multifunction import MultiFunction
 
-from ufv.core import bounded_ok, proved, undecided, violated
+from ufv.core import crash_text, deliberate, bounded_ok, proved, undecided, violated
 from ufv.opq import Opq
 
 LEVEL = "other"
@@ -348,6 +348,46 @@ def build(run):
                 if getattr(nu, "__func__", nu) is not getattr(nf, "__func__", nf):
                     return violated(f"{cls.__name__}: handler for {T.__name__} depends on whether the class was used before the "
                                     f"type was registered", replay={"class": cls.__name__, "type": T.__name__}, reproduced=True)
+        # ... and by actually applying every real algorithm object (created before / after the registrations) to instances of the late
+        # types, among them a late subclass of a geometric quantity that has a dedicated handler: any per-typecode table an algorithm
+        # keeps besides the handler table must cover the late types too.  Only 'index out of range' escaping from a table look-up counts
+        # (an algorithm may refuse a node it cannot treat; it may not fail to dispatch it).
+        from ufl.corealg.map_dag import map_expr_dag
+        from ufv.opq import mesh as _mesh
+        import ufl.classes as C_
+        msh = _mesh("triangle")
+        _counter[0] += 1
+        LateJ = ufl_type()(UFLType(f"LateJacobian{_counter[0]}x{__import__('os').getpid()}", (C_.Jacobian,), {"__slots__": ()}))
+        LateN = ufl_type()(UFLType(f"LateFacetNormal{_counter[0]}x{__import__('os').getpid()}", (C_.FacetNormal,), {"__slots__": ()}))
+        objs = [mk() for _, mk in news] + [LateJ(msh), LateN(msh), C_.Indexed(LateJ(msh), C_.MultiIndex((C_.FixedIndex(0), C_.FixedIndex(1))))]
+        for cls, args in first.items():
+            insts = []
+            try:
+                insts.append(("created after the registration", cls(*args)))
+            except Exception:  # noqa: BLE001
+                pass
+            for hist, inst in insts:
+                for o in objs:
+                    n += 1
+                    try:
+                        if isinstance(inst, MultiFunction):
+                            map_expr_dag(inst, o)
+                        else:
+                            inst.visit(o)
+                    except IndexError as ex:
+                        if "out of range" in str(ex) and not deliberate(ex):
+                            return violated(f"{cls.__name__} ({hist}) applied to an instance of the late-registered type {type(o).__name__}: "
+                                            f"{crash_text(ex)}", replay={"class": cls.__name__, "type": type(o).__name__}, reproduced=True, backend="exec")
+                    except BaseException:  # noqa: BLE001
+                        pass
+        from ufl.algorithms.apply_geometry_lowering import apply_geometry_lowering
+        try:
+            apply_geometry_lowering(C_.Indexed(LateJ(msh), C_.MultiIndex((C_.FixedIndex(0), C_.FixedIndex(0)))), (LateJ,))
+            n += 1
+        except IndexError as ex:
+            return violated(f"apply_geometry_lowering(expr, preserve_types=(late type,)): {crash_text(ex)}", replay={"type": LateJ.__name__}, reproduced=True)
+        except Exception:  # noqa: BLE001
+            pass
         return proved("exec(all real algorithm classes x all registered types)", vcs=n,
                       sample=f"{len(first)} real MultiFunction/Transformer classes; skipped (ctor args unknown): {skipped}")
     run.add("real-algorithm-classes/used-before-registration", real, kind="values")
